@@ -212,7 +212,7 @@ theorem fault_is_retried (s : St) (u : Nat) (hu : u ∈ chkpntUsers s) :
 /-! ### 4. a new daemon restores the spool -/
 
 /-- every task of a well-formed spool is accepted by `_inject_task1(t, NOT_A_UID)` in the root daemon: the
-unknown peer acts for the known owner the `OWNER` field names, and the uid is free -/
+absent peer (`NOT_A_UID`: no socket peer) acts for the known owner the `OWNER` field names, and the uid is free -/
 theorem spool_inject_succeeds {s : St} (hme : s.me = 0) {o : Nat} (hk : Known s o) (uid : String)
     (ms dur : Nat) (occ : List Nat) (hfree : absMap s uid = none) :
     (inject s uid (some o) ms dur occ true notAUid).2 = true :=
